@@ -256,7 +256,7 @@ class FunEval:
                     out.add("IN_CHILD" if y == "SEP" else "IN_SIB_RAW")
                 elif x == "IN_NORM":
                     out.add("IN_CHILD" if y == "SEP" else "IN_SIB")
-                elif x in ("IN_SIB", "IN_SIB_RAW", "OUT", "IN_CHILD", "NEWNAME"):
+                elif x in ("IN_SIB", "IN_SIB_RAW", "OUT", "IN_CHILD", "NEWNAME", "MANGLED"):
                     out.add(x)
                 elif x in ("IN_NAME_RAW",) and y in ("IN_NAME_RAW", "IN_NAME"):
                     out.add("NAMECAT_RAW")
@@ -459,6 +459,12 @@ class FunEval:
                             out.add({"IN_NAME": "IN_NAME_SAME", "IN_NAME_RAW": "IN_NAME_SAME",
                                      "CHILD_NAME": "CHILD_NAME"}.get(c, c))
                     return out
+                if m in ("split", "rsplit", "partition", "rpartition") and n.args and \
+                        isinstance(n.args[0], ast.Constant) and isinstance(n.args[0].value, str) and \
+                        n.args[0].value not in ("/", "\\") and (recv - {"UNK", "OTHER", "NONE", "CONST"}):
+                    # cutting a *path* at a character that is not the separator: the character may sit in a
+                    # directory component, and the piece kept is then a different directory altogether
+                    return {"MANGLED"}
                 if m in ("strip", "lower", "upper", "format", "removeprefix", "removesuffix", "lstrip"):
                     # prefix / suffix removal returns the string unchanged when it does not match
                     return recv
